@@ -14,6 +14,7 @@ import (
 	"bytes"
 	"context"
 	"fmt"
+	"runtime"
 	"testing"
 	"time"
 
@@ -29,9 +30,9 @@ import (
 )
 
 type c05Op struct {
-	Kind    string `json:"k"` // getblock getblocks addblock addblocks
-	Keys    []int  `json:"keys"` // indices: 0..7 valid pool, 8..10 rejected CIDs
-	Session int    `json:"session"` // 0 none, 1 NewSession, 2 ContextWithSession
+	Kind    string `json:"k"`                // getblock getblocks addblock addblocks
+	Keys    []int  `json:"keys"`             // indices: 0..7 valid pool, 8..10 rejected CIDs
+	Session int    `json:"session"`          // 0 none, 1 NewSession, 2 ContextWithSession
 	Cancel  int    `json:"cancel,omitempty"` // getblocks: cancel after this many received blocks (0 = never)
 }
 
@@ -140,6 +141,14 @@ func c05Hashes(b blocks.Block) bool {
 
 func c05Run(t *testing.T, ci any, trace bool) *verifsim.Result {
 	c := ci.(*c05Case)
+	// sync.Pool is live in this check (elsewhere nothing is pooled inside a bubble):
+	// a per-request object that is recycled across calls carries state from one
+	// request into another. The pools are emptied before every run (two collections:
+	// the second drops the victim cache), so a run never depends on earlier runs.
+	runtime.VerifPools(true)
+	defer runtime.VerifPools(false)
+	runtime.GC()
+	runtime.GC()
 	return verifsim.Run(t, c.Cfg, trace, func(s *verifsim.Sim) {
 		pool, bad := c05Pool()
 		all := append(append([]blocks.Block{}, pool...), bad...)
